@@ -5,6 +5,9 @@ Streams
          temperatures (on a hold / between holds / equal to end or start / above start / below end)
          x dt; compared with the Lean model (`cnt`, `kCN`; dyadic programs also with the model at Rat),
          and the three trigger-time clauses evaluated on the real profile.
+  hist   object history: cnt (or a run), IN-PLACE edits of the program (hold duration, rate, end, cnTemp, t_tot,
+         holding setter), cnt (a run) again - compared with a fresh object of the current program and with the
+         (stateless) model.
   pair   PAIRED real Snowflake runs, with `cnTemp` and without it (same seeds), full recording, the
          generator's draws recorded: columns <= k_CN bit-identical, at k_CN every liquid supercooled
          vial nucleates, no nucleation without its die being below the rate-law probability at any
@@ -355,11 +358,160 @@ def _pred_pair(case, impl):
 
 
 # ---------------------------------------------------------------------------
+# stream "hist": object history - look cnt up (or run), edit the program IN PLACE, look it up (run) again.
+# The model is stateless: the trigger time is a function of the CURRENT program only.
+# ---------------------------------------------------------------------------
+def _apply_edits(op, edits):
+    for e in edits:
+        what, val = e[0], e[1]
+        if what == "hold_duration":
+            op.holding[e[2]]["duration"] = val
+        elif what == "rate":
+            op.cooling["rate"] = val
+        elif what == "end":
+            op.cooling["end"] = val
+        elif what == "cnTemp":
+            op.cnTemp = val
+        elif what == "t_tot":
+            op.t_tot = val
+        elif what == "holding_setter":
+            op.holding = [dict(temp=h["temp"], duration=val) for h in op.holding]
+
+
+def _current_program(op):
+    return dict(t_tot=float(op.t_tot), start=float(op.cooling["start"]), stop=float(op.cooling["end"]),
+                rate=float(op.cooling["rate"]),
+                holds=(None if op.holding is None else [[float(h["temp"]), float(h["duration"])] for h in op.holding]),
+                cn=(None if op.cnTemp is None else float(op.cnTemp)))
+
+
+def _impl_hist(case):
+    import contextlib
+    import io
+    import warnings
+
+    from ethz_snow.operatingConditions import OperatingConditions
+    from ethz_snow.snowflake import Snowflake
+
+    def fin(x):
+        return None if (isinstance(x, float) and math.isinf(x)) else int(x)
+
+    with contextlib.redirect_stdout(io.StringIO()), warnings.catch_warnings():
+        warnings.simplefilter("ignore")
+        try:
+            op = _mk_opcond(case)
+            obs = {"raise": None}
+            S = None
+            if case.get("with_run"):
+                S = Snowflake(k=dict(case["k"]), N_vials=tuple(case["shape"]), dt=case["dt"], opcond=op,
+                              seed=case["seed"], seed_v=case["seed_v"])
+                S.run()
+            obs["cnt_before"] = fin(op.cnt)
+            _apply_edits(op, case["edits"])
+            obs["cnt_after"] = fin(op.cnt)
+            cur = _current_program(op)
+            obs["program"] = cur
+            fresh = OperatingConditions(t_tot=cur["t_tot"], cooling=dict(rate=cur["rate"], start=cur["start"], end=cur["stop"]),
+                                        holding=(None if cur["holds"] is None else
+                                                 [dict(temp=h[0], duration=h[1]) for h in cur["holds"]]),
+                                        cnTemp=cur["cn"])
+            obs["cnt_fresh"] = fin(fresh.cnt)
+            if S is not None:
+                S.run()
+                S2 = Snowflake(k=dict(case["k"]), N_vials=tuple(case["shape"]), dt=case["dt"], opcond=fresh,
+                               seed=case["seed"], seed_v=case["seed_v"])
+                S2.run()
+                a = [None if math.isnan(x) else float(x) for x in S.stats["t_nucleation"]]
+                b = [None if math.isnan(x) else float(x) for x in S2.stats["t_nucleation"]]
+                obs["tnuc_rerun"], obs["tnuc_fresh"] = a, b
+            return obs
+        except Exception as e:
+            return {"raise": core.exc_class(e), "stage": "hist", "msg": str(e)[:200]}
+
+
+def _model_hist(drv, case, impl):
+    if impl.get("raise"):
+        return {"raise": impl["raise"]}
+    cur = dict(impl["program"], isList=True)
+    if cur["cn"] is None:
+        return {"raise": None, "cnt": None}
+    r = dict(_req_prog(cur, "float"), op="cnt", cn=f2b(cur["cn"]))
+    a = drv.call(r)
+    if "error" in a:
+        raise RuntimeError(a["error"])
+    if "raise" in a:
+        return {"raise": a["raise"]}
+    return {"raise": None, "cnt": a["cnt"]}
+
+
+def _compare_hist(case, impl, model):
+    if impl.get("raise") or model.get("raise"):
+        return [] if impl.get("raise") == model.get("raise") else [f"exception: impl {impl.get('raise')} vs model {model.get('raise')}"]
+    dis = []
+    if impl["cnt_after"] != model["cnt"]:
+        dis.append(f"cnt after in-place edits {case['edits']}: object {impl['cnt_after']} vs model of the current program {model['cnt']}")
+    return dis
+
+
+def _pred_hist(case, impl):
+    out = []
+    if impl.get("raise"):
+        return out
+    kinds = "+".join(sorted(set(e[0] for e in case["edits"])))
+    if impl["cnt_after"] != impl["cnt_fresh"]:
+        out.append(Failure(clause="cnt_is_last", key=f"cnt_is_last|OperatingConditions.cnt|stale-after-{kinds}",
+                           detail=f"after the in-place edits {case['edits']} the object reports cnt={impl['cnt_after']} but a "
+                                  f"fresh OperatingConditions of the same program gives {impl['cnt_fresh']} "
+                                  f"(before the edits: {impl['cnt_before']})"))
+    if "tnuc_rerun" in impl and impl["tnuc_rerun"] != impl["tnuc_fresh"]:
+        out.append(Failure(clause="cn_all_eligible_fire", key=f"cn_all_eligible_fire|Snowflake.run|rerun-after-{kinds}",
+                           detail=f"re-running the Snowflake after the in-place edits {case['edits']} gives t_nucleation "
+                                  f"{impl['tnuc_rerun'][:4]}… but a fresh object of the same program gives {impl['tnuc_fresh'][:4]}…"))
+    return out
+
+
+def _hist(rng, with_run=False):
+    start = rng.choice([20, 5, 0])
+    stop = rng.choice([-50, -40, -30])
+    rate = rng.choice([0.1, 0.2, 0.5, 1.0])
+    temps = rng.sample([-3, -5, -8, -10, -12, -15], rng.choice([1, 1, 2, 3]))
+    holds = [[T, rng.choice([30, 60, 120, 300, 900])] for T in temps]
+    cn = rng.choice(temps + [rng.choice(temps) - 1.5])
+    ramp = (start - stop) / rate + sum(h[1] for h in holds)
+    t_tot = ramp + rng.choice([100, 500, 2000])
+    edits = []
+    for _ in range(rng.choice([1, 1, 2])):
+        w = rng.choice(["hold_duration", "hold_duration", "rate", "end", "cnTemp", "t_tot", "holding_setter"])
+        if w == "hold_duration":
+            edits.append([w, rng.choice([0, 45, 200, 1500]), rng.randrange(len(holds))])
+        elif w == "rate":
+            edits.append([w, rng.choice([0.05, 0.25, 2.0])])
+        elif w == "end":
+            edits.append([w, rng.choice([-20, -35, -60])])
+        elif w == "cnTemp":
+            edits.append([w, rng.choice(temps + [None, -6.5])])
+        elif w == "t_tot":
+            edits.append([w, max(30.0, t_tot + rng.choice([-200, 300]))])
+        else:
+            edits.append([w, rng.choice([10, 600])])
+    case = dict(kind="hist", t_tot=t_tot, start=start, stop=stop, rate=rate, holds=holds, cn=cn, dt=rng.choice([1, 2, 5]),
+                edits=edits, with_run=with_run)
+    if with_run:
+        K = rng.choice([500, 1000])
+        case.update(shape=[2, 2, 1], k={"int": 20, "ext": 20, "s0": K}, dt=rng.choice([2, 5]), seed=rng.randint(0, 10 ** 6),
+                    seed_v=rng.randint(0, 10 ** 6))
+        case["t_tot"] = min(case["t_tot"], 1200 * case["dt"])
+    return case
+
+
+# ---------------------------------------------------------------------------
 # dispatch
 # ---------------------------------------------------------------------------
 def run_impl(case):
     if case["kind"] == "pair":
         return _impl_pair(case)
+    if case["kind"] == "hist":
+        return _impl_hist(case)
     return _impl_cnt(case)
 
 
@@ -368,11 +520,13 @@ def _key(case):
 
 
 def run_model(drv, case):
-    if case["kind"] != "pair":
+    if case["kind"] == "cnt":
         return _model_cnt(drv, case)
     impl = _STASH.pop(_key(case), None)
     if impl is None:
         impl = run_impl(case)
+    if case["kind"] == "hist":
+        return _model_hist(drv, case, impl)
     if impl.get("raise"):
         return {"raise": impl["raise"]}
     return {"raise": None, "cn": fu.run_model(drv, case, impl["cn"]),
@@ -380,6 +534,8 @@ def run_model(drv, case):
 
 
 def compare(case, impl, model):
+    if case["kind"] == "hist":
+        return _compare_hist(case, impl, model)
     if case["kind"] != "pair":
         return _compare_cnt(case, impl, model)
     if impl.get("raise") or model.get("raise"):
@@ -395,10 +551,10 @@ def compare(case, impl, model):
 
 
 def predicates(case, impl):
-    if case["kind"] == "pair":
+    if case["kind"] in ("pair", "hist"):
         _STASH.clear()
         _STASH[_key(case)] = impl
-        return _pred_pair(case, impl)
+        return _pred_pair(case, impl) if case["kind"] == "pair" else _pred_hist(case, impl)
     return _pred_cnt(case, impl)
 
 
@@ -406,6 +562,10 @@ def classify(case, impl):
     tags = [f"kind={case['kind']}"]
     if impl.get("raise"):
         return tags + [f"raise={impl['raise']}"]
+    if case["kind"] == "hist":
+        tags += ["edit=" + e[0] for e in case["edits"]] + (["with-run"] if case.get("with_run") else [])
+        tags.append("cnt-moved" if impl["cnt_before"] != impl["cnt_fresh"] else "cnt-unchanged")
+        return tags
     if case["kind"] == "pair":
         a = impl["cn"]
         N, k = a["N"], a["kCN_obs"]
@@ -432,6 +592,8 @@ def classify(case, impl):
 def nontrivial(case, impl):
     if impl.get("raise"):
         return False
+    if case["kind"] == "hist":
+        return impl["cnt_before"] != impl["cnt_fresh"]
     if case["kind"] == "pair":
         a = impl["cn"]
         return a["kCN_obs"] < a["N"] and any(s == 0 for s in a["Xsigma"][a["kCN_obs"]])
@@ -505,6 +667,13 @@ def _pair(rng, big=False):
     ramp = (start - stop) / rate + sum(h[1] for h in holds)
     t_trig = (start - cn) / rate + sum(h[1] for h in holds if h[0] >= cn)
     t_tot = rng.choice([ramp + 300 * 1000 / K, t_trig + 20 * dt, t_trig + 200, max(dt, t_trig - 3 * dt), t_trig + dt])
+    if rng.random() < 0.15:
+        # boundary: the batch STARTS supercooled and cnTemp equals the start temperature (cnt = 0, k_CN = 0),
+        # or equals the end temperature (trigger at the end of the process)
+        start = rng.choice([-1, -3, -5])
+        holds = [h for h in holds if stop <= h[0] < start]
+        cn = start if rng.random() < 0.7 else stop
+        t_tot = rng.choice([50 * dt, 200 * dt, (start - stop) / rate + 100])
     t_tot = max(dt, min(t_tot, 1500 * dt))
     return dict(kind="pair", unstable=unstable, N_vials=shape, k=k, dt=dt, threshold=0.9, seed=rng.randint(0, 10 ** 6),
                 seed_v=rng.randint(0, 10 ** 6), initIce=rng.choice(["indirect", "direct"]),
@@ -519,6 +688,11 @@ def cases(rng, tier):
         yield _with_cn(rng, c05._exact(rng), exact=True)
     for _ in range(n_p):
         yield _pair(rng, big=(tier != "quick"))
+    n_h, n_hr = (150, 16) if tier == "quick" else (3000, 200)
+    for _ in range(n_h):
+        yield _hist(rng)
+    for _ in range(n_hr):
+        yield _hist(rng, with_run=True)
 
 
 def widen(rng, tier):
